@@ -185,7 +185,11 @@ def condense_dataset(
         # (these are *all* scalar features in the case of .tdms data).
         for feat in features:
             if feat not in h5_cond["events"]:
-                hw.store_feature(feat=feat, data=ds[feat])
+                data = ds[feat]
+                # empty features (e.g. empty datasets, which are not
+                # copied by `rtdc_copy`) cannot be stored
+                if len(data):
+                    hw.store_feature(feat=feat, data=data)
 
         # collect warnings log
         if warnings_list:
